@@ -64,7 +64,11 @@ func (gj *groupJob[T]) Close() error {
 	}
 
 	gj.ack()
-	gj.changeStatus(closed)
+
+	if err := gj.markClosed(); err != nil {
+		return err
+	}
+
 	gj.wgc.Done()
 
 	return nil
@@ -130,7 +134,11 @@ func (gj *resultGroupJob[T, R]) Close() error {
 	}
 
 	gj.ack()
-	gj.changeStatus(closed)
+
+	if err := gj.markClosed(); err != nil {
+		return err
+	}
+
 	gj.wgc.Done()
 
 	if gj.wgc.Count() == 0 {
@@ -201,7 +209,11 @@ func (gj *errorGroupJob[T]) Close() error {
 	}
 
 	gj.ack()
-	gj.changeStatus(closed)
+
+	if err := gj.markClosed(); err != nil {
+		return err
+	}
+
 	gj.wgc.Done()
 
 	if gj.wgc.Count() == 0 {
